@@ -18,6 +18,11 @@ unchanged.  For the rank-based measures the maps include range-compressing / -ex
 (50+1e-4x, 1e-9x, 1e6x, tanh(x/1e5), exp(5x)), stacks with a common missing entry, and each
 entry is also judged against the order-only definition (exact comparisons) on the mapped values.
 
+Correlation-type (corr, corr_cov with sigma_k None / variance vector / matrix) and cosine-type
+measures are also driven over stacks with common missing entries (every single position, a few
+pairs / triples of positions) under every affine map (incl. offsets +7, +1e3) resp. scaling of
+their class, and corr(_cov) must equal cosine(_cov) of the RDMs centred on their available entries.
+
 Part T also runs minmax / geodesic on integer-valued RDMs with values 1..K for every K (value
 range K-1, and five positive affine images of each) and requires the extremes to go to exactly
 0 and 1.  Part P/N (rank-based evaluations have noise ceilings): both pool_rdm twins against
@@ -94,7 +99,11 @@ BOUNDS = {
                                        '{-1,0,1,2}^3 all pairs (tau-a: one side per map; kendall / tau-b: every '
                                        'second vector against all 64, every second map each, one side per map)'],
                              'generic_fills': 4, 'n_cond': [4, 5],
-                             'common_nan': 'n_cond=4: every single missing pair, 5 maps, one side per map'},
+                             'common_nan': 'rank-based: n_cond=4, every single missing pair, 5 maps, one side per map; '
+                                           'corr/cosine types (sigma_k none/vector/full): n_cond 4,5, every single position + 3-4 '
+                                           'pairs/triples, every harness map of the class, one side per map, every second fill',
+                             'centring_law': 'corr(_cov)==cosine(_cov) of centred RDMs: both n=3 alphabets, fills n_cond 4,5 complete '
+                                             'and with every single / every pair (n_cond 4) of missing positions'},
               'integer_ranges': 'K = 2..64: {1,K//2+1,K}^3 (27), [K,a,b,c,d,1] (16), 3 integer fills; each alone and as 5 affine images',
               'pool_and_noise_ceilings': {'pool_tierA': 'all 729 2-stacks over {0,1,2}^3, one treatment each (rotating)',
                                           'pool_fills': 'n_cond 4,5 x n_rdm 2,3,4 x 3 value kinds x 2 fills x 10 treatments; common NaN n_cond=4,n_rdm=3',
@@ -106,7 +115,8 @@ BOUNDS = {
                  'invariance': {'tierA': ['{0,1,2}^3 all pairs', '{-1,0,1,2}^3 all pairs',
                                           '{0,1,2}^6: 27 rows x all 729'],
                                 'generic_fills': 20, 'n_cond': [4, 5, 6],
-                                'common_nan': 'n_cond=4: every single missing pair, 5 maps, one side per map'},
+                                'common_nan': 'rank-based as quick; corr/cosine types: all fills, all sides, n_cond 4 every pair of positions',
+                                'centring_law': 'as quick with 4 fills'},
                  'integer_ranges': 'K = 2..128 as in quick; K = 2..64: all 729 vectors over {1,K//2+1,K}^6',
                  'pool_and_noise_ceilings': {'pool_tierA': 'all 2-stacks over {0,1,2}^3 and {-1,0,1,2}^3, all 19683 3-stacks over {0,1,2}^3',
                                              'pool_fills': 'as quick with 6 fills',
@@ -604,6 +614,8 @@ MAPS['2x+1'] = ('affine', 'any', _np_map(lambda v: 2 * v + 1))
 MAPS['0.5x-1.3'] = ('affine', 'any', _np_map(lambda v: 0.5 * v - 1.3))
 MAPS['3.7x+0.25'] = ('affine', 'any', _np_map(lambda v: 3.7 * v + 0.25))
 MAPS['lib:minmax_transform'] = ('affine', 'any', _lib('minmax_transform'))
+MAPS['2.5x+7'] = ('affine', 'any', _np_map(lambda v: 2.5 * v + 7.0))
+MAPS['0.3x+1e3'] = ('affine', 'any', _np_map(lambda v: 0.3 * v + 1e3))
 MAPS['0.5x'] = ('scaling', 'any', _np_map(lambda v: 0.5 * v))
 MAPS['2x'] = ('scaling', 'any', _np_map(lambda v: 2 * v))
 MAPS['3.7x'] = ('scaling', 'any', _np_map(lambda v: 3.7 * v))
@@ -622,9 +634,22 @@ NAN_MAPS = ['cube', 'lib:transform(cube)', 'lib:sqrt_transform', 'lib:rank_trans
             '50+1e-4x']
 
 
+# the large-offset affine maps are for the correlation-type measures; the rank-based ones already get
+# large offsets / tiny slopes through the 'rescaling' class
+CORR_ONLY_MAPS = ('2.5x+7', '0.3x+1e3')
+
+
+def nan_maps_for(method):
+    """maps driven over stacks with common missing entries"""
+    if method in RANK_BASED:
+        return list(NAN_MAPS)
+    return [m for m in maps_for(method) if not m.startswith('lib:')]   # minmax_transform: no NaN support
+
+
 def maps_for(method):
     if method in RANK_BASED:
         classes = ('monotone', 'affine', 'scaling', 'rescaling')
+        return [m for m in MAP_ORDER if MAPS[m][0] in classes and m not in CORR_ONLY_MAPS]
     elif method in CORR_TYPE:
         classes = ('affine', 'scaling')
     else:
@@ -634,7 +659,7 @@ def maps_for(method):
 
 def _partner_map(method, mp, nonneg, nan=False):
     """the map applied to the second argument when both are mapped: the next admissible one"""
-    ms = [m for m in maps_for(method) if (nonneg or MAPS[m][1] == 'any') and (not nan or m in NAN_MAPS)]
+    ms = [m for m in (nan_maps_for(method) if nan else maps_for(method)) if nonneg or MAPS[m][1] == 'any']
     return ms[(ms.index(mp) + 1) % len(ms)]
 
 
@@ -663,6 +688,8 @@ def _sigma(kind, n, seed):
         return None
     if kind == 'full':
         return spd(rng_for(seed, 'c17sigma', n), n)
+    if kind == 'vector':
+        return np.round(rng_for(seed, 'c17sigmavec', n).uniform(0.5, 3.0, size=n), 3)
     raise ValueError(kind)
 
 
@@ -754,6 +781,53 @@ def run_I(case, ctx, base=None):
         if len(ctx.samples) < 2:
             ctx.samples.append(_r.jsonable(dict(case, example_x=X[0].tolist(), example_y=Y[-1].tolist())))
     return base
+
+
+def run_C(case, ctx):
+    """correlation-type = cosine-type of the mean-centred RDMs (mean over the available entries):
+    corr == cosine and corr_cov == cosine_cov (same sigma_k) after removing each RDM's own mean;
+    case: {'kind':'C','src':..., 'sigma':...}"""
+    import rsatoolbox.rdm as rr
+    X, Y = _inv_stacks(case['src'], ctx.seed)
+    keep = ~np.isnan(X[0])
+    kx = [i for i, x in enumerate(X) if not mref.is_degenerate('corr', x[keep])]
+    ky = [j for j, y in enumerate(Y) if not mref.is_degenerate('corr', y[keep])]
+    if not kx or not ky:
+        ctx.exclude('measure undefined (zero norm / constant vector)')
+        return
+    X, Y = X[kx], Y[ky]
+    n_cond = ref.n_from_len(X.shape[1])
+    nan = ',nan' if not keep.all() else ''
+    # own centring, entry by entry over the available entries
+    Xc = np.array([[a - sum(r[keep]) / int(keep.sum()) for a in r] for r in X])
+    Yc = np.array([[a - sum(r[keep]) / int(keep.sum()) for a in r] for r in Y])
+    pairs = [('corr', 'cosine', {}, TOL)] if case['sigma'] == 'none' else []
+    pairs.append(('corr_cov', 'cosine_cov', {'sigma_k': _sigma(case['sigma'], n_cond, ctx.seed)}, TOL_CG))
+    for m_corr, m_cos, kw, tol in pairs:
+        tag = 'law|%s==%s-of-centred|sigma_k=%s%s' % (m_corr, m_cos, case['sigma'], nan)
+        with ctx.guard(tag, case):
+            a = np.asarray(rr.compare(rr.RDMs(X.copy()), rr.RDMs(Y.copy()), method=m_corr, **kw))
+            b = np.asarray(rr.compare(rr.RDMs(Xc), rr.RDMs(Yc), method=m_cos, **kw))
+            ctx.case(dict(case, law=m_corr), n=a.size)
+            ctx.dev('law/' + m_corr, maxreldev(a, b))
+            ctx.outcome(np.round(a, 7).tolist())
+            if not allclose(a, b, tol):
+                ctx.fail(tag + '|differs', case, '%s of %s, %s: %s; %s of the mean-centred RDMs: %s' % (
+                    m_corr, X.tolist()[:2], Y.tolist()[:2], a.tolist()[:2], m_cos, b.tolist()[:2]))
+
+
+def nan_positions(n_cond, full=False):
+    """common missing entries: every single position; a few pairs and one triple of positions (full: every
+    pair of positions for 4 conditions)"""
+    m = n_cond * (n_cond - 1) // 2
+    out = [[p] for p in range(m)]
+    if n_cond == 4 and full:
+        out += [[p, q] for p in range(m) for q in range(p + 1, m)]
+    elif n_cond == 4:
+        out += [[0, 1], [2, 5], [1, 3, 4]]
+    else:
+        out += [[0, 1], [2, 7], [4, m - 1], [2, 7, m - 2]]
+    return out
 
 
 def run_L(case, ctx):
@@ -1021,7 +1095,7 @@ def shards(tier, seed):
                         'sides': sides})
 
     meth_sig = ([(m, 'none') for m in RANK_BASED + ['corr', 'cosine']] +
-                [(m, s) for m in ('corr_cov', 'cosine_cov') for s in ('none', 'full')])
+                [(m, s) for m in ('corr_cov', 'cosine_cov') for s in ('none', 'vector', 'full')])
     for method, sigma in meth_sig:
         slow = method in ('kendall', 'tau-b')
         # quick tier: 'kendall' and 'tau-b' are two names of one measure (Kendall's tau-b): they share
@@ -1076,6 +1150,9 @@ def shards(tier, seed):
                 for fill in range(4 if th else 1):
                     out.append({'kind': 'N', 'method': method, 'n_cond': n_cond, 'n_vec': n_vec, 'fill': fill,
                                 'variants': VARIANTS if th else QUICK_VARIANTS})
+    # ---- C: corr(_cov) == cosine(_cov) of the mean-centred RDMs, complete and with common missing entries
+    for sigma in ('none', 'vector', 'full'):
+        out.append({'kind': 'Cset', 'sigma': sigma, 'fills': 4 if th else 2})
     # ---- L: spearman == corr of rank-transformed
     out.append({'kind': 'L', 'src': ['alpha', '012^3', [0, 27]]})
     out.append({'kind': 'L', 'src': ['alpha', 'm1012^3', [0, 64]]})
@@ -1127,6 +1204,22 @@ def run_shard(shard, ctx):
                             break
                     if base is None:
                         break
+            thorough = ctx.tier == 'thorough'
+            if method not in RANK_BASED and shard['n_cond'] in (4, 5) and (thorough or fill % 2 == 0):
+                # correlation- / cosine-type measures on stacks with common missing entries: every map of
+                # the class (quick: one side per map, rotating; thorough: every side)
+                for vk in (('signed', 'ties', 'nonneg') if thorough else ('signed', 'ties')):
+                    for k, pos in enumerate(nan_positions(shard['n_cond'], full=thorough)):
+                        src = ['fill', shard['n_cond'], fill, vk, pos]
+                        base = None
+                        for mp in nan_maps_for(method):
+                            for side in (('x', 'y', 'xy') if thorough else _sides('rot', mp, k)):
+                                base = run_I({'kind': 'I', 'method': method, 'sigma': shard['sigma'],
+                                              'src': src, 'map': mp, 'side': side}, ctx, base)
+                                if base is None:
+                                    break
+                            if base is None:
+                                break
             if method in RANK_BASED and shard['n_cond'] == 4 and part != 'plain':
                 # every single condition pair missing in all RDMs of both stacks
                 for vk in ('ties', 'nonneg'):
@@ -1143,6 +1236,14 @@ def run_shard(shard, ctx):
                                 break
     elif kind == 'L':
         run_L(shard, ctx)
+    elif kind == 'Cset':
+        for alpha in ('012^3', 'm1012^3'):
+            run_C({'kind': 'C', 'src': ['alpha', alpha, [0, len(alphabet_vectors(alpha))]], 'sigma': shard['sigma']}, ctx)
+        for n_cond in (4, 5):
+            for fill in range(shard['fills']):
+                for vk in ('signed', 'ties', 'nonneg'):
+                    for pos in [None] + nan_positions(n_cond, full=True):
+                        run_C({'kind': 'C', 'src': ['fill', n_cond, fill, vk, pos], 'sigma': shard['sigma']}, ctx)
     elif kind == 'P':
         for src, variants in _iter_P(shard):
             vecs = _stack_from_src(src, ctx.seed)
@@ -1173,6 +1274,8 @@ def run_case(case, ctx):
         run_I(case, ctx)
     elif kind == 'L':
         run_L(case, ctx)
+    elif kind == 'C':
+        run_C(case, ctx)
     elif kind == 'P' and 'variant' in case:
         run_P({k: v for k, v in case.items() if k != 'twin'}, ctx)
     elif kind == 'N' and 'variant' in case:
